@@ -644,6 +644,11 @@ def adv_instances(tier, want_contiguous):
             combos.append(tuple(
                 ("s000" if i == full else "s111") if c == "S" else c
                 for i, c in enumerate(t)))
+    if tier != "thorough":
+        # index arrays with and without the AssumeNonNegative promise in one
+        # index expression (the thorough tier has every mixture)
+        combos += [("arr", "arrnn"), ("arrnn", "arr"), ("arrnn", "arrnn"),
+                   ("arrnn", "s111", "arr"), ("arr", "s111", "arrnn")]
     for combo in combos:
         if True:
             narr = sum(1 for c in combo if c.startswith("arr"))
